@@ -50,6 +50,139 @@ let string_of_z (x : z) : string =
 let split_ws s = List.filter (fun x -> x <> "") (String.split_on_char ' ' s)
 let zs_of_string s = List.map z_of_string (split_ws s)
 
+(* ---------- bytes / hex ------------ *)
+let hexdigit c = match c with
+  | '0'..'9' -> Char.code c - 48 | 'a'..'f' -> Char.code c - 87 | 'A'..'F' -> Char.code c - 55
+  | _ -> failwith "hex"
+
+(* "x0aff" -> list of extracted Z bytes *)
+let bytes_of_hex (s : string) : z list =
+  let s = if String.length s > 0 && s.[0] = 'x' then String.sub s 1 (String.length s - 1) else s in
+  let n = String.length s / 2 in
+  let rec go i acc = if i < 0 then acc else go (i - 1) (z_of_int (16 * hexdigit s.[2*i] + hexdigit s.[2*i+1]) :: acc) in
+  go (n - 1) []
+
+let hex_of_bytes (l : z list) : string =
+  let b = Buffer.create 64 in
+  Buffer.add_char b 'x';
+  List.iter (fun x -> Buffer.add_string b (Printf.sprintf "%02x" ((int_of_z x) land 255))) l;
+  Buffer.contents b
+
+let rec nat_of_int n = if n <= 0 then O else S (nat_of_int (n - 1))
+
+(* ---------- s-expressions ------------ *)
+type sx = A of string | L of sx list
+
+let parse_sx (s : string) : sx =
+  let n = String.length s in
+  let p = ref 0 in
+  let skip () = while !p < n && (s.[!p] = ' ' || s.[!p] = '\n') do incr p done in
+  let rec rd () =
+    skip ();
+    if !p >= n then failwith "sx: eof";
+    if s.[!p] = '(' then begin
+      incr p;
+      let items = ref [] in
+      let fin = ref false in
+      while not !fin do
+        skip ();
+        if !p >= n then failwith "sx: unclosed";
+        if s.[!p] = ')' then (incr p; fin := true) else items := rd () :: !items
+      done;
+      L (List.rev !items)
+    end else begin
+      let st = !p in
+      while !p < n && s.[!p] <> ' ' && s.[!p] <> '(' && s.[!p] <> ')' do incr p done;
+      A (String.sub s st (!p - st))
+    end in
+  rd ()
+
+let kind_of_string = function
+  | "bool" -> KBool | "int32" -> KInt32 | "int64" -> KInt64 | "uint32" -> KUint32 | "uint64" -> KUint64
+  | "sint32" -> KSint32 | "sint64" -> KSint64 | "fixed32" -> KFixed32 | "fixed64" -> KFixed64
+  | "sfixed32" -> KSfixed32 | "sfixed64" -> KSfixed64 | "float" -> KFloat | "double" -> KDouble
+  | "string" -> KString | "bytes" -> KBytes | k -> failwith ("kind " ^ k)
+
+(* (schema (msg cap ap (f num type label oneof ap custom)...)...) *)
+let schema_of_sx (x : sx) : mdesc list =
+  let field = function
+    | L [A "f"; A num; ty; A lab; A one; A ap; A cust] ->
+      let fty = (match ty with
+          | A "enum" -> TEnum
+          | A k -> TScalar (kind_of_string k)
+          | L [A "msg"; A i] -> TMsg (nat_of_int (int_of_string i))
+          | L [A "map"; A kk; A vk] ->
+            (* map values outside the 15 scalar kinds are reported as TMap with ... *)
+            TMap (kind_of_string kk, kind_of_string vk)
+          | _ -> failwith "ftype") in
+      { fnum = z_of_string num; fty = fty;
+        flabel = (match lab with "s" -> LSingular | "o" -> LOptional | _ -> LRepeated);
+        foneof = (if one = "-" then None else Some (nat_of_int (int_of_string one)));
+        f_always_present = (ap = "1");
+        f_custom = (match cust with "-" -> CNone | "ts" -> CTimestamp | "dur" -> CDuration | _ -> COpaque) }
+    | _ -> failwith "field" in
+  match x with
+  | L (A "schema" :: ms) ->
+    List.map (function
+        | L (A "msg" :: A cap :: A ap :: fs) ->
+          { mfields = List.map field fs; m_always_present = (ap = "1"); m_capture = (cap = "1") }
+        | _ -> failwith "msg") ms
+  | _ -> failwith "schema"
+
+let rec val_of_sx (x : sx) : val0 =
+  match x with
+  | L [A "i"; A n] -> VInt (z_of_string n)
+  | L [A "d"; A n] -> VDur (z_of_string n)
+  | L [A "t"; A a; A b] -> VTime (z_of_string a, z_of_string b)
+  | L [A "b"; A h] -> VBytes (bytes_of_hex h)
+  | L [A "o"] -> VOpt None
+  | L [A "o"; v] -> VOpt (Some (val_of_sx v))
+  | L (A "l" :: vs) -> VList (List.map val_of_sx vs)
+  | L [A "m"] -> VMsg None
+  | L [A "m"; L fs; A u] -> VMsg (Some (List.map val_of_sx fs, bytes_of_hex u))
+  | L [A "e"; L fs; A u] -> VEmb (List.map val_of_sx fs, bytes_of_hex u)
+  | L (A "p" :: es) -> VMap (List.map (function L [k; v] -> (val_of_sx k, val_of_sx v) | _ -> failwith "entry") es)
+  | _ -> failwith "val"
+
+let z_lt a b = Z.ltb a b
+
+let rec string_of_val (v : val0) : string =
+  match v with
+  | VInt z -> "(i " ^ string_of_z z ^ ")"
+  | VDur z -> "(d " ^ string_of_z z ^ ")"
+  | VTime (a, b) -> "(t " ^ string_of_z a ^ " " ^ string_of_z b ^ ")"
+  | VBytes b -> "(b " ^ hex_of_bytes b ^ ")"
+  | VOpt None -> "(o)"
+  | VOpt (Some x) -> "(o " ^ string_of_val x ^ ")"
+  | VList l -> "(l" ^ String.concat "" (List.map (fun x -> " " ^ string_of_val x) l) ^ ")"
+  | VMsg None -> "(m)"
+  | VMsg (Some (fs, u)) -> "(m (" ^ String.concat " " (List.map string_of_val fs) ^ ") " ^ hex_of_bytes u ^ ")"
+  | VEmb (fs, u) -> "(e (" ^ String.concat " " (List.map string_of_val fs) ^ ") " ^ hex_of_bytes u ^ ")"
+  | VMap es ->
+    (* canonical form: sorted by key (integers numerically, byte strings lexicographically) *)
+    let key_lt a b = (match a, b with
+        | VInt x, VInt y -> z_lt x y
+        | VBytes x, VBytes y -> (List.map int_of_z x) < (List.map int_of_z y)
+        | _ -> false) in
+    let sorted = List.stable_sort (fun (a, _) (b, _) -> if key_lt a b then -1 else if key_lt b a then 1 else 0) es in
+    "(p" ^ String.concat "" (List.map (fun (k, v) -> " (" ^ string_of_val k ^ " " ^ string_of_val v ^ ")") sorted) ^ ")"
+
+let string_of_ecls = function
+  | EWire -> "wire" | EParse -> "parse" | EAdvance -> "advance" | ETag -> "tag" | EFieldNum -> "fieldnum"
+  | ECustom -> "custom" | EStack -> "stack"
+
+(* schemas seen so far: name -> (schema, programs) *)
+let schemas : (string, (mdesc list * prog list option)) Hashtbl.t = Hashtbl.create 16
+
+let split_ref (r : string) : string * int =
+  let i = String.rindex r ':' in
+  (String.sub r 0 i, int_of_string (String.sub r (i + 1) (String.length r - i - 1)))
+
+let lookup (r : string) =
+  let (name, idx) = split_ref r in
+  let (s, p) = Hashtbl.find schemas name in
+  (s, p, nat_of_int idx)
+
 (* ---------- suites ------------ *)
 let do_bitset (input : string) : string =
   let xs = zs_of_string input in
@@ -59,9 +192,58 @@ let do_bitset (input : string) : string =
   if p then Buffer.add_char b 'P';
   Buffer.contents b
 
+let do_fnstr (input : string) : string =
+  match mx_fn_string (z_of_string input) with
+  | Panic -> "PANIC"
+  | Ok l -> hex_of_bytes l
+
+let do_schema name sx =
+  let s = schema_of_sx (parse_sx sx) in
+  let p = (match mx_gen_all s with GOk p -> Some p | GError _ -> None) in
+  Hashtbl.replace schemas name (s, p);
+  (match mx_gen_all s with GOk _ -> "ok" | GError r -> "generror:" ^ string_of_int (let rec n = function O -> 0 | S k -> 1 + n k in n r))
+
+(* msg: typeref gotype val implbytes flags detail refbytes
+   -> pico=<model Marshal bytes|PANIC> ref=<ref_encode (norm v)> rt=<model unmarshal of model bytes> refdec=<ref_decode of model bytes> norm=<norm v> *)
+let do_msg tref vs =
+  let (s, p, idx) = lookup tref in
+  match p with
+  | None -> "nogen"
+  | Some progs ->
+    let v = val_of_sx (parse_sx vs) in
+    let nv = mx_norm s idx v in
+    let pico = mx_marshal progs idx v in
+    let refb = mx_ref_encode s idx nv in
+    let zero = mx_zero progs idx in
+    let (pico_s, rt_s, refdec_s) = (match pico with
+        | Panic -> ("PANIC", "-", "-")
+        | Ok b ->
+          let (e, m) = mx_unmarshal progs idx b zero in
+          let rt = (match e with None -> string_of_val m | Some (f, c) -> "err:" ^ string_of_z f ^ ":" ^ string_of_ecls c) in
+          let rd = (match mx_ref_decode s idx b zero with Some m -> string_of_val m | None -> "reject") in
+          (hex_of_bytes b, rt, rd)) in
+    String.concat "\t" ["pico=" ^ pico_s; "ref=" ^ hex_of_bytes refb; "rt=" ^ rt_s; "refdec=" ^ refdec_s; "norm=" ^ string_of_val nv]
+
+(* dec: typeref gotype hexdata ... -> st=<ok|err:f:cls> val=<..> ref=<val|reject> *)
+let do_dec tref hx =
+  let (s, p, idx) = lookup tref in
+  match p with
+  | None -> "nogen"
+  | Some progs ->
+    let b = bytes_of_hex hx in
+    let zero = mx_zero progs idx in
+    let (e, m) = mx_unmarshal progs idx b zero in
+    let st = (match e with None -> "ok" | Some (f, c) -> "err:" ^ string_of_z f ^ ":" ^ string_of_ecls c) in
+    let rd = (match mx_ref_decode s idx b zero with Some m -> string_of_val m | None -> "reject") in
+    String.concat "\t" ["st=" ^ st; "val=" ^ string_of_val m; "ref=" ^ rd]
+
 let dispatch suite cols =
   match suite, cols with
   | "bitset", input :: _ -> do_bitset input
+  | "fnstr", input :: _ -> do_fnstr input
+  | "schema", name :: sx :: _ -> do_schema name sx
+  | "msg", tref :: _ :: v :: _ -> do_msg tref v
+  | "dec", tref :: _ :: hx :: _ -> do_dec tref hx
   | _ -> "?unknown-suite"
 
 let () =
